@@ -3,7 +3,9 @@
 Monitor: every write entry point x mode x algorithm x key x data x chunking;
 oracle = hashlib digest + byte equality of reads by key and by address, in the
 writing mode and in one other mode."""
-from .. import drv, ev, gen, ref
+import os
+
+from .. import crash, drv, ev, gen, ref, sysm
 from ..model import Model
 
 
@@ -129,6 +131,81 @@ def run(ctx):
         ctx.rm(cache)
     ctx.extra["entry_points"] = eps
     ctx.extra["modes"] = modes
+    short_write_monitor(ctx, modes)
+    if not ctx.quick:
+        sanitizer_replays(ctx)
+
+
+def short_write_monitor(ctx, modes):
+    """write(2) may legally accept fewer bytes than offered. Under the ptrace supervisor every data write of a
+    few writes is shortened (the kernel really writes only K bytes and reports K); the write must still succeed,
+    return the true digest and read back."""
+    rng = ctx.rng
+    work = ctx.new_dir("shortw")
+    d5k = rng.randbytes(5000)
+    big = rng.randbytes(gen.MIB + 17)
+    scen = [
+        ("write", {"op": "write", "cache": "<C>", "key": "k", "data": ctx.data(d5k)}, d5k),
+        ("writer-3chunks", {"op": "writer", "cache": "<C>", "key": "k", "opts": {},
+                            "chunks": [ctx.data(d5k[:100]), ctx.data(d5k[100:4000]), ctx.data(d5k[4000:])]}, d5k),
+        ("write_hash-1MiB+17", {"op": "write_hash", "cache": "<C>", "data": ctx.data(big)}, big),
+    ]
+    for name, req, data in scen:
+        for mode in modes:
+            sc = crash.Scenario(name, mode, req)
+            bdir = os.path.join(work, f"b-{name}-{mode.replace('@', '-')}")
+            os.makedirs(bdir)
+            cache = os.path.join(bdir, "cache")
+            base = sysm.run([crash.oneshot_cmd(sc, cache)], [cache], work, timeout=60)
+            writes = [(n, c) for (n, c, fdp) in crash.visible_writes(base) if "/index-v5/" not in fdp and c > 1]
+            ctx.rm(bdir)
+            jobs = [(n, k) for (n, c) in writes for k in sorted({1, c // 2, c - 1})]
+
+            def one(job, sc=sc, name=name):
+                n, k = job
+                rdir = os.path.join(work, f"r-{name}-{sc.mode.replace('@', '-')}-{n}-{k}")
+                os.makedirs(rdir)
+                cache = os.path.join(rdir, "cache")
+                res = sysm.run([crash.oneshot_cmd(sc, cache)], [cache], work, short=[(n, k, 0)], timeout=60)
+                return job, rdir, cache, res
+
+            for (job, rdir, cache, res) in crash.pmap(one, jobs):
+                n, k = job
+                rs = res.responses(0)
+                r = rs[0] if rs else {"died": {"rc": res.rc}}
+                ctx.count("short_write_runs")
+                ctx.case(distinct_key=("short-write", name, mode, n, k),
+                         sample={"monitor": "short write", "entry_point": name, "mode": mode, "call": n, "accepted_bytes": k,
+                                 "result": ev.variant(r)} if (n + k) % 5 == 0 else None)
+                det = {"entry_point": name, "mode": mode, "call": n, "accepted_bytes": k, "steps": [[mode, req]],
+                       "sysmon_argv": res.argv[:14], "response": r}
+                sig = f"short-write|{name}|{mode}"
+                if not ev.is_ok(r):
+                    ctx.violation(sig + f"|{ev.variant(r)}", f"{name} in {mode}: when write(2) #{n} accepts only {k} bytes the "
+                                  f"write fails: {ev.brief(r)}", det)
+                elif r["ok"]["sri"] != ref.sri("sha256", data):
+                    ctx.violation(sig + "|wrong-digest", f"{name} in {mode}: when write(2) #{n} accepts only {k} bytes the returned "
+                                  f"address {r['ok']['sri']} is not the digest of the data", det)
+                else:
+                    rd = ctx.call(mode, {"op": "read_hash", "cache": cache, "sri": r["ok"]["sri"]})
+                    if not ev.is_ok(rd) or drv.data_bytes(rd["ok"]["data"]) != data:
+                        ctx.violation(sig + "|read-back", f"{name} in {mode}: after a short write(2) the data does not read back: "
+                                      f"{ev.brief(rd)}", det)
+                ctx.rm(rdir)
+
+
+def sanitizer_replays(ctx):
+    from .. import san
+    rng = ctx.rng
+    work = ctx.new_dir("san")
+    n = 0
+    for v in ("astd", "tok"):
+        n += san.asan(ctx, v, lambda c: san.writer_script(rng, c, 500, 200000), work, f"writers-{v}")
+    n += san.memcheck(ctx, "astd", lambda c: san.writer_script(rng, c, 200, gen.MIB), work, "writers-mmap")
+    for shard in range(4):
+        n += san.miri(ctx, "miri-tok", lambda c: san.writer_script(rng, c, 30, 20000), work, f"writers-miri{shard}")
+    n += san.miri(ctx, "miri-sync", lambda c: san.writer_script(rng, c, 60, 20000, modes=("sync",)), work, "writers-mirisync")
+    ctx.extra["sanitizer_replay_ops"] = n
 
 
 def sig(c, result):
